@@ -11,6 +11,7 @@ import (
 	"fmt"
 	"math/rand"
 	"os"
+	"runtime"
 	"sort"
 	"strings"
 	"sync"
@@ -69,6 +70,7 @@ func newSrchEngine(sc srchCfg) *srchEngine {
 			e.cancel()
 			f := ai.VerifCancelFlag(e.ai)
 			for atomic.LoadInt32(f) == 0 {
+				runtime.Gosched() // let the engine's watcher goroutine store the flag
 			}
 		}
 		return base(c, q)
